@@ -60,11 +60,13 @@ Definition exec_leaf (stream : bool) (items : list item) (n : node) : nres :=
   end.
 
 (* errors a graph's own loop makes: cancelled context, step limit, an error item met while the
-   checkpoint of an interrupt is converted *)
+   checkpoint of an interrupt is converted, a failing branch condition (or an error item met
+   while the branch reads its input) *)
 Definition graph_level (e : err) : Prop :=
   e = new_graph_run_error (Wrapf (Leaf id_canceled)) \/
   e = new_graph_run_error (Leaf id_exceed) \/
-  exists it, e = Wrapf (Wrapf it).
+  (exists it, e = Wrapf (Wrapf it)) \/
+  exists u, e = branch_error u.
 
 (* [reported F stream g e p r]: the run of g may return e; p is a real path of nodes of g
    (sub-graph nodes through the forest) down to the place the origin r was produced:
@@ -107,7 +109,7 @@ Section RunProofs.
   Lemma steps_reported : forall rec g, rec_ok rec ->
     forall k cur items canc es e,
       incl cur (g_stages g) ->
-      steps F stream rec (g_stages g) (g_loop g) k cur items canc = GFail es -> In e es ->
+      steps F stream rec (g_stages g) (g_loop g) (g_br g) k cur items canc = GFail es -> In e es ->
       exists p r, reported F stream g e p r.
   Proof.
     intros rec g Hrec. induction k as [|k IH]; intros cur items canc es e Hincl Hrun Hin.
@@ -127,9 +129,12 @@ Section RunProofs.
           inversion Hrun; subst es.
           change (In e (map (fun e => Wrapf (Wrapf e)) (i :: its))) in Hin.
           apply in_map_iff in Hin. destruct Hin as [it [<- _]].
-          do 2 eexists. apply rep_graph. right. right. eauto.
+          do 2 eexists. apply rep_graph. right. right. left. eauto.
         * destruct rest as [|st' rest'].
-          -- destruct (g_loop g); [|discriminate]. eapply IH; [|exact Hrun|exact Hin]. apply incl_refl.
+          -- destruct (branch_eval stream (g_br g) _) as [|be|bi]; [| |discriminate].
+             ++ destruct (g_loop g); [|discriminate]. eapply IH; [|exact Hrun|exact Hin]. apply incl_refl.
+             ++ inversion Hrun; subst es. destruct Hin as [<-|[]].
+                do 2 eexists. apply rep_graph. right. right. right. eauto.
           -- eapply IH; [|exact Hrun|exact Hin].
              intros x Hx. apply Hincl. right. exact Hx.
       + inversion Hrun; subst es. rewrite <- Ef in Hin. apply in_all_fails in Hin.
@@ -145,7 +150,7 @@ Section RunProofs.
              exists (key :: p), r. eapply rep_sub; eauto.
           -- inversion H1; subst es'. destruct He' as [<-|[]]. discriminate.
           -- inversion H1; subst es'. destruct He' as [<-|[]].
-             exists [key], (PanicErr i). eapply rep_sub_panic; eauto.
+             eexists [key], (PanicErr _). eapply rep_sub_panic; eauto.
         * exists [key], e'. eapply (rep_leaf F stream g st (NTools key ts)); eauto.
   Qed.
 
@@ -160,14 +165,14 @@ Section RunProofs.
 
   (* completeness of one step: a task that ends with a real error makes the run fail with
      that error wrapped under the node's key among the legal answers *)
-  Lemma step_reports_failure : forall rec all loop k st rest items n es' e',
+  Lemma step_reports_failure : forall rec all loop br k st rest items n es' e',
     In n st -> exec_node F stream rec items false n = NErr es' -> In e' es' ->
     is_interrupt_task e' = false ->
     any_fuel (map (fun n => (node_key n, exec_node F stream rec items false n)) st) = false ->
-    exists es, steps F stream rec all loop (S k) (st :: rest) items false = GFail es /\
+    exists es, steps F stream rec all loop br (S k) (st :: rest) items false = GFail es /\
                In (wrap_node (node_key n) e') es.
   Proof.
-    intros rec all loop k st rest items n es' e' Hn Hex He' Hni Hfuel.
+    intros rec all loop br k st rest items n es' e' Hn Hex He' Hni Hfuel.
     cbn [steps]. rewrite stage_fold_spec. cbn [orb app]. rewrite Hfuel.
     set (rs := map (fun n => (node_key n, exec_node F stream rec items false n)) st) in *.
     assert (Hin : In (wrap_node (node_key n) e') (all_fails rs)).
@@ -179,12 +184,12 @@ Section RunProofs.
 
   (* a step in which some task asks for an interrupt and none fails ends the run interrupted,
      not failed (stream mode: unless converting the checkpoint meets an error item) *)
-  Lemma step_interrupts : forall rec all loop k st rest items,
+  Lemma step_interrupts : forall rec all loop br k st rest items,
     let rs := map (fun n => (node_key n, exec_node F stream rec items false n)) st in
     any_fuel rs = false -> all_fails rs = [] -> any_int rs = true -> all_items rs = [] ->
-    steps F stream rec all loop (S k) (st :: rest) items false = GInt.
+    steps F stream rec all loop br (S k) (st :: rest) items false = GInt.
   Proof.
-    intros rec all loop k st rest items rs Hf Hfails Hint Hitems.
+    intros rec all loop br k st rest items rs Hf Hfails Hint Hitems.
     cbn [steps]. rewrite stage_fold_spec. cbn [orb app]. fold rs.
     rewrite Hf, Hfails, Hint. cbn [app]. rewrite Hitems. reflexivity.
   Qed.
@@ -223,7 +228,7 @@ Section RunProofs.
 
   Lemma loop_hits_limit : forall rec all, all <> [] -> forallb (forallb ok_node) all = true ->
     forall k cur, cur <> [] -> incl cur all ->
-    steps F stream rec all true k cur [] false = GFail [new_graph_run_error (Leaf id_exceed)].
+    steps F stream rec all true BrOk k cur [] false = GFail [new_graph_run_error (Leaf id_exceed)].
   Proof.
     intros rec all Hne Hok. induction k as [|k IH]; intros cur Hc Hincl.
     - destruct cur; [contradiction|reflexivity].
@@ -237,10 +242,10 @@ Section RunProofs.
   Qed.
 
   Lemma cyclic_run_hits_limit : forall d g,
-    g_loop g = true -> g_stages g <> [] -> forallb (forallb ok_node) (g_stages g) = true ->
+    g_loop g = true -> g_br g = BrOk -> g_stages g <> [] -> forallb (forallb ok_node) (g_stages g) = true ->
     run_graph F stream (S d) g [] false = GFail [new_graph_run_error (Leaf id_exceed)].
   Proof.
-    intros d g Hl Hne Hok. cbn [run_graph]. rewrite Hl.
+    intros d g Hl Hb Hne Hok. cbn [run_graph]. rewrite Hl, Hb.
     replace (fanout (width_of_first (g_stages g)) []) with (@nil item)
       by (destruct (width_of_first (g_stages g)) as [|[|n]]; reflexivity).
     apply loop_hits_limit; auto. apply incl_refl.
@@ -379,30 +384,30 @@ Proof.
   split; intros ->; apply sentinels_lemma.
 Qed.
 
-Lemma panicking_node_fails_run : forall F stream rec all loop k st rest key f i,
+Lemma panicking_node_fails_run : forall F stream rec all loop br k st rest key f i,
   In (NLam key f (BPanic i)) st ->
   any_fuel (map (fun n => (node_key n, exec_node F stream rec [] false n)) st) = false ->
-  exists es e, steps F stream rec all loop (S k) (st :: rest) [] false = GFail es /\ In e es /\
+  exists es e, steps F stream rec all loop br (S k) (st :: rest) [] false = GFail es /\ In e es /\
                as_panic e = Some i /\ np_of e = [key].
 Proof.
-  intros F stream rec all loop k st rest key f i Hin Hfuel.
-  destruct (step_reports_failure F stream rec all loop k st rest [] (NLam key f (BPanic i)) [PanicErr i] (PanicErr i))
+  intros F stream rec all loop br k st rest key f i Hin Hfuel.
+  destruct (step_reports_failure F stream rec all loop br k st rest [] (NLam key f (BPanic i)) [PanicErr i] (PanicErr i))
     as [es [Hrun He]]; auto.
   - cbn [exec_node]. apply lambda_panic_is_error.
   - left. reflexivity.
   - exists es, (wrap_node key (PanicErr i)). repeat split; auto.
 Qed.
 
-Lemma panicking_tool_fails_run : forall F stream rec all loop k st rest key ts i,
+Lemma panicking_tool_fails_run : forall F stream rec all loop br k st rest key ts i,
   In (NTools key ts) st -> In (TPanic i) ts ->
   any_fuel (map (fun n => (node_key n, exec_node F stream rec [] false n)) st) = false ->
   (forall es e, exec_tools stream [] ts = NErr es -> In e es -> is_interrupt_task e = false) ->
-  exists es, steps F stream rec all loop (S k) (st :: rest) [] false = GFail es /\ es <> [].
+  exists es, steps F stream rec all loop br (S k) (st :: rest) [] false = GFail es /\ es <> [].
 Proof.
-  intros F stream rec all loop k st rest key ts i Hin Hp Hfuel Hni.
+  intros F stream rec all loop br k st rest key ts i Hin Hp Hfuel Hni.
   destruct (tool_panic_is_error stream ts i Hp) as [es' [Hex Hne]].
   destruct es' as [|e' es'']; [contradiction|].
-  destruct (step_reports_failure F stream rec all loop k st rest [] (NTools key ts) (e' :: es'') e')
+  destruct (step_reports_failure F stream rec all loop br k st rest [] (NTools key ts) (e' :: es'') e')
     as [es [Hrun He]]; auto.
   - left. reflexivity.
   - eapply Hni; eauto. left. reflexivity.
